@@ -421,6 +421,9 @@ class Runner:
                 changed = [a for a in self.net.subscribed
                            if self.world.status(a) != self.last_notified.get(a, None)]
                 rng.shuffle(changed)
+                if stage.get('order') is not None:            # exhaustive-order stream: explicit permutation
+                    changed = sorted(changed, key=lambda a: self.world.id_of_addr[a])
+                    changed = [changed[i] for i in stage['order'] if i < len(changed)]
                 stale = dict(self.last_notified)
                 for a in changed:
                     st = self.world.status(a)
@@ -562,7 +565,8 @@ def monitor(world, obs, errors):
 
 THIRD_KINDS = [('p2pkh', None), ('p2pkh', 'stream'), ('p2pkh', 'support'), ('p2pkh', 'channel'), ('p2sh', None),
                ('p2sh', 'stream'), ('p2sh', 'support'), ('p2sh', 'update'), ('p2sh', 'supportdata'), ('pubkey', None),
-               ('segwit', None), ('data', None), ('empty', None), ('p2pkh', 'update'), ('p2pkh', 'badclaim')]
+               ('segwit', None), ('data', None), ('empty', None), ('p2pkh', 'update'), ('p2pkh', 'badclaim'),
+               ('nontemplate', None)]
 MINE_WRAPS = [None, None, None, None, 'stream', 'channel', 'support', 'supportdata', 'update', 'collection',
               'repost', 'badclaim']
 
@@ -650,7 +654,7 @@ def gen_scenario(rng, size):
             specs.append(spec)
             new.append(spec)
             for pos, o in enumerate(outs):
-                if o['kind'] in ('p2pkh', 'p2sh'):
+                if o['kind'] in ('p2pkh', 'p2sh', 'nontemplate'):
                     pool.append((idx, pos, o['kind'] == 'p2pkh' and o['to'][0] == 'w'))
         stages.append({'new': new, 'confirm': confirm, 'order_seed': rng.randrange(10 ** 6),
                        'dups': rng.random() < 0.3, 'stale': rng.random() < 0.3,
@@ -658,6 +662,22 @@ def gen_scenario(rng, size):
                        'resubscribe': si > 0 and rng.random() < 0.25,
                        'yield_p': rng.choice((0.0, 0.3, 1.0))})
     return {'accounts': accounts, 'stages': stages, 'delay_seed': rng.randrange(10 ** 6)}
+
+
+def order_scenario(k, perm, yield_p):
+    """funds k addresses of one chain (gap k), then a chain of spends moving each to the next address plus a
+    claim; the k status notifications of the second stage are delivered in the order [perm]."""
+    def w(n, ch=0):
+        return ['w', 0, ch, n]
+    fund = [{'ins': [['ext', i]], 'height': 1, 'outs': [{'kind': 'p2pkh', 'amt': 1000 + i, 'to': w(i)},
+                                                        {'kind': 'p2sh', 'amt': 7, 'to': ['x', i]}]} for i in range(k)]
+    spend = [{'ins': [[i, 0]], 'height': 0 if i % 2 else 2,
+              'outs': [{'kind': 'p2pkh', 'amt': 500 + i, 'to': w((i + 1) % k)},
+                       {'kind': 'p2pkh', 'wrap': 'stream', 'amt': 100 + i, 'to': w(i)},
+                       {'kind': 'p2pkh', 'amt': 3, 'to': ['x', 1]}]} for i in range(k)]
+    return {'accounts': [{'seed_ix': 0, 'gaps': [k, 1]}], 'delay_seed': 17,
+            'stages': [{'new': fund, 'order_seed': 1, 'yield_p': 0.3},
+                       {'new': spend, 'order_seed': 2, 'order': perm, 'yield_p': yield_p}]}
 
 
 # ------------------------------------------------------------------------------------------------
@@ -728,6 +748,14 @@ def run_case(run, model, scenario, label):
             run.violation(case, f'stage {si}: {bad}', signature=sig)
             return
         m = model.call('run', gaps=runner.world.gaps, ops=ops, accounts=[[2 * k, 2 * k + 1] for k in range(n_acc)])
+        if m['stuck'] is not None:
+            # the recorded interleaving is not a run of the model (e.g. two syncs of one address overlapped)
+            run.disagreement('C09.trace_is_not_a_model_run', case, {'stage': si, 'op_index': m['stuck'], 'op': ops[m['stuck']][:2]}, None)
+            return
+        if not m['in_sync'] or m['pending']:
+            # the hypotheses of C09_converges / C09_gap_found must hold at every quiescent point of a real run
+            run.disagreement('C09.model_state_not_in_sync', case, {'stage': si}, {'in_sync': m['in_sync'], 'pending': m['pending']})
+            return
         # the model's own specification set must coincide with its utxos at a converged point (theorem C09_converges)
         for a in m['accounts']:
             if sorted(a['utxos']) != sorted(a['spec_utxos']):
@@ -772,7 +800,15 @@ def main(run):
                 'one transaction.')
     for nm, sc in load_corpus():
         run_case(run, model, sc, 'corpus:' + nm)
-    n = vlib.scaled(run.tier, 120, 3000)
+    # exhaustive small scope: one spend graph touching k addresses, every order of the k notifications,
+    # with and without yielding between them
+    import itertools
+    k = vlib.scaled(run.tier, 3, 4)
+    for perm in itertools.permutations(range(k)):
+        for yp in vlib.scaled(run.tier, (0.0,), (0.0, 1.0)):
+            run_case(run, model, order_scenario(k, list(perm), yp), 'orders:%s:%s' % (''.join(map(str, perm)), yp))
+    run.count('exhaustive_orders_k=%d' % k)
+    n = vlib.scaled(run.tier, 90, 3000)
     for i in range(n):
         size = rng.choice((3, 6, 10, 16, 24, 30))
         run_case(run, model, gen_scenario(rng, size), f'random:{i}')
